@@ -40,14 +40,14 @@ Fixpoint cut_at (sizes : list nat) (s : list N) : list (list N) :=
          end
   end.
 
-Inductive status := NeedMore | Closed.
+Inductive rd_status := RdNeedMore | RdClosed.
 
 (* what the property expects of a reader that is given the stream of [frames] and whose decoder accepts exactly [ok]:
    the frames in order, each once, up to the first one the decoder rejects (which closes the connection) *)
-Fixpoint expect (ok : list N -> bool) (frames : list (list N)) : list (list N) * status :=
+Fixpoint rd_expect (ok : list N -> bool) (frames : list (list N)) : list (list N) * rd_status :=
   match frames with
-  | [] => ([], NeedMore)
-  | f :: r => if ok f then let (fs, st) := expect ok r in (f :: fs, st) else ([], Closed)
+  | [] => ([], RdNeedMore)
+  | f :: r => if ok f then let (fs, st) := rd_expect ok r in (f :: fs, st) else ([], RdClosed)
   end.
 
 Definition u16_hd (b : list N) : N := u16_of (nth 0 b 0%N) (nth 1 b 0%N).
@@ -97,27 +97,27 @@ Section Readers.
     end.
 
   (* handleConn's loop around ReadMsgFromTCP: the list of messages handed to the handler, then why it stopped *)
-  Fixpoint tcp_conn (fuel : nat) (br : list N) (segs : list (list N)) : res (list (list N) * status) :=
+  Fixpoint tcp_conn (fuel : nat) (br : list N) (segs : list (list N)) : res (list (list N) * rd_status) :=
     match fuel with
     | 0 => OutOfFuel
     | S f =>
       match read_full 2 2 br segs [] with
       | RFFuel => OutOfFuel
-      | RFShort => Ok ([], NeedMore)
+      | RFShort => Ok ([], RdNeedMore)
       | RFOk hdr br1 segs1 =>
         let len := N.to_nat (u16_hd hdr) in
         match read_full len len br1 segs1 [] with
         | RFFuel => OutOfFuel
-        | RFShort => Ok ([], NeedMore)
+        | RFShort => Ok ([], RdNeedMore)
         | RFOk body br2 segs2 =>
           if ok body
           then do (fs, st) <- tcp_conn f br2 segs2; Ok (body :: fs, st)
-          else Ok ([], Closed)                         (* invalid msg: handleConn returns, the conn is closed *)
+          else Ok ([], RdClosed)                         (* invalid msg: handleConn returns, the conn is closed *)
         end
       end
     end.
 
-  Definition tcp_run (segs : list (list N)) : res (list (list N) * status) :=
+  Definition tcp_run (segs : list (list N)) : res (list (list N) * rd_status) :=
     tcp_conn (S (length (concat segs))) [] segs.
 
   (* ---------------------------------------------------------------- (b) the gnet machine *)
@@ -125,7 +125,7 @@ Section Readers.
   Definition g_init : gstate := mkG None 0 false.
 
   (* gnet.Conn.Next(n): (returned octets, what stays buffered) *)
-  Definition next (n : Z) (inb : list N) : list N * list N :=
+  Definition gnet_next (n : Z) (inb : list N) : list N * list N :=
     if (Z.of_nat (length inb) <? n)%Z then ([], inb)
     else if (n <=? 0)%Z then (inb, [])
     else (firstn (Z.to_nat n) inb, skipn (Z.to_nat n) inb).
@@ -138,43 +138,43 @@ Section Readers.
     let n := Nat.min (length buf - at_) (length src) in
     Ok (firstn at_ buf ++ firstn n src ++ skipn (at_ + n) buf, n).
 
-  (* one pass from the label "read:" to either `return gnet.None` (Wait) or a complete message (Got) *)
-  Inductive iter := Wait (st : gstate) (inb : list N) | Got (m : list N) (st : gstate) (inb : list N).
+  (* one pass from the label "read:" to either `return gnet.None` (GWait) or a complete message (GGot) *)
+  Inductive giter := GWait (st : gstate) (inb : list N) | GGot (m : list N) (st : gstate) (inb : list N).
 
-  Definition body_phase (buf : list N) (readN : nat) (inb : list N) : res iter :=
+  Definition body_phase (buf : list N) (readN : nat) (inb : list N) : res giter :=
     let bodyRemains := (Z.of_nat (length buf) - Z.of_nat readN)%Z in
-    let (b, inb1) := next bodyRemains inb in
+    let (b, inb1) := gnet_next bodyRemains inb in
     do (buf1, n) <- copy_into buf readN b;
     let rn := readN + n in
-    if rn <? length buf1 then Ok (Wait (mkG (Some buf1) rn false) inb1)
-    else Ok (Got buf1 (mkG None rn false) inb1).     (* cc.buffer = nil; readN and readingHdr keep their values *)
+    if rn <? length buf1 then Ok (GWait (mkG (Some buf1) rn false) inb1)
+    else Ok (GGot buf1 (mkG None rn false) inb1).     (* cc.buffer = nil; readN and readingHdr keep their values *)
 
-  Definition g_iter (st : gstate) (inb : list N) : res iter :=
+  Definition g_iter (st : gstate) (inb : list N) : res giter :=
     match g_buf st with
     | Some buf =>
       if g_hdr st then
         let hdrRemains := (Z.of_nat (length buf) - Z.of_nat (g_readN st))%Z in
-        let (b, inb1) := next hdrRemains inb in
+        let (b, inb1) := gnet_next hdrRemains inb in
         do (buf1, n) <- copy_into buf (g_readN st) b;
         let rn := g_readN st + n in
-        if rn <? 2 then Ok (Wait (mkG (Some buf1) rn true) inb1)
+        if rn <? 2 then Ok (GWait (mkG (Some buf1) rn true) inb1)
         else match buf1 with                           (* binary.BigEndian.Uint16(cc.buffer) *)
              | a :: b' :: _ => body_phase (get_buf (N.to_nat (u16_of a b'))) 0 inb1
              | _ => Panic
              end
       else body_phase buf (g_readN st) inb
     | None =>
-      let (hdr, inb1) := next 2 inb in
+      let (hdr, inb1) := gnet_next 2 inb in
       if length hdr <? 2 then
         do (buf1, n) <- copy_into (get_buf 2) 0 hdr;
-        Ok (Wait (mkG (Some buf1) n true) inb1)        (* partial hdr *)
+        Ok (GWait (mkG (Some buf1) n true) inb1)        (* partial hdr *)
       else
         let l := N.to_nat (u16_hd hdr) in
-        let (body, inb2) := next (Z.of_nat l) inb1 in
+        let (body, inb2) := gnet_next (Z.of_nat l) inb1 in
         if length body <? l then
           do (buf1, n) <- copy_into (get_buf l) 0 body;
-          Ok (Wait (mkG (Some buf1) n false) inb2)     (* partial body *)
-        else Ok (Got body st inb2)
+          Ok (GWait (mkG (Some buf1) n false) inb2)     (* partial body *)
+        else Ok (GGot body st inb2)
     end.
 
   Inductive gaction := GaNone | GaClose.
@@ -187,8 +187,8 @@ Section Readers.
     | S f =>
       do r <- g_iter st inb;
       match r with
-      | Wait st' inb' => Ok ([], st', inb', GaNone)
-      | Got m st' inb' =>
+      | GWait st' inb' => Ok ([], st', inb', GaNone)
+      | GGot m st' inb' =>
         if ok m then
           if 0 <? length inb'                          (* if c.InboundBuffered() > 0 { goto read } *)
           then do (fs, st2, inb2, a) <- on_traffic f st' inb'; Ok (m :: fs, st2, inb2, a)
@@ -203,9 +203,9 @@ Section Readers.
   Definition gtrace := list (gstate * nat * nat * gaction).
 
   Fixpoint gnet_feed (st : gstate) (inb : list N) (segs : list (list N))
-    : res (list (list N) * status * gtrace) :=
+    : res (list (list N) * rd_status * gtrace) :=
     match segs with
-    | [] => Ok ([], NeedMore, [])
+    | [] => Ok ([], RdNeedMore, [])
     | s :: r =>
       match s with
       | [] => gnet_feed st inb r
@@ -213,14 +213,14 @@ Section Readers.
         let inb1 := inb ++ s in
         do (fs, st', inb', a) <- on_traffic (S (length inb1)) st inb1;
         match a with
-        | GaClose => Ok (fs, Closed, [(st', length inb', length fs, a)])
+        | GaClose => Ok (fs, RdClosed, [(st', length inb', length fs, a)])
         | GaNone => do (fs2, stt, tr) <- gnet_feed st' inb' r;
                    Ok (fs ++ fs2, stt, (st', length inb', length fs, a) :: tr)
         end
       end
     end.
 
-  Definition gnet_run (segs : list (list N)) : res (list (list N) * status) :=
+  Definition gnet_run (segs : list (list N)) : res (list (list N) * rd_status) :=
     do (fs, stt, _) <- gnet_feed g_init [] segs; Ok (fs, stt).
 End Readers.
 
@@ -248,7 +248,7 @@ Definition parse_stream (s : list N) : option (list (list N)) := parse_units (le
 (* Small-step system of the writers of one connection.  State: responses whose handler is running (pending),
    the octets written so far, and (ghost) the bodies written, in write order.
    ws_start: a handler is spawned (or the reader is about to write REFUSED itself);
-   ws_write: ONE Write/AsyncWrite call emits prefix+body — any pending response may be next (every completion order). *)
+   ws_write: ONE Write/AsyncWrite call emits prefix+body — any pending response may be gnet_next (every completion order). *)
 Definition wstate := (list (list N) * list N * list (list N))%type.
 Inductive wreach : list (list N) -> wstate -> Prop :=
 | wr_init : wreach [] ([], [], [])
@@ -256,7 +256,7 @@ Inductive wreach : list (list N) -> wstate -> Prop :=
 | wr_write : forall started p1 b p2 o w,
     wreach started (p1 ++ b :: p2, o, w) -> wreach started (p1 ++ p2, o ++ unit_of b, w ++ [b]).
 
-(* executable schedule: at every step the index (into pending) of the response written next *)
+(* executable schedule: at every step the index (into pending) of the response written gnet_next *)
 Fixpoint write_sched (pending : list (list N)) (sched : list nat) (out : list N) : list N :=
   match sched with
   | [] => out
@@ -273,11 +273,11 @@ Definition two_writes_interleaved (b1 b2 : list N) : list N :=
 
 (* ------------------------------------------------------------------ (d) the per-connection in-flight counter *)
 (* cc := concurrent.Add(1); if cc > max { write REFUSED; concurrent.Add(-1) } else go { handle; write; concurrent.Add(-1) }
-   Queries are named by their position on the connection.  c_fl is ghost: admitted, not yet finished. *)
-Inductive cev := Arrive (q : nat) | Finish (q : nat).
-Inductive cout := ORefused (q : nat) | OAdmitted (q : nat) | OAnswer (q : nat).
-Record cstate := mkC { c_n : nat; c_fl : list nat }.
-Definition c_init : cstate := mkC 0 [].
+   Queries are named by their position on the connection.  infl_fl is ghost: admitted, not yet finished. *)
+Inductive infl_ev := InflArrive (q : nat) | InflFinish (q : nat).
+Inductive infl_out := InflRefused (q : nat) | InflAdmitted (q : nat) | InflAnswer (q : nat).
+Record infl_state := mkInfl { infl_n : nat; infl_fl : list nat }.
+Definition infl_init : infl_state := mkInfl 0 [].
 
 Fixpoint remove_one (q : nat) (l : list nat) : list nat :=
   match l with
@@ -287,31 +287,31 @@ Fixpoint remove_one (q : nat) (l : list nat) : list nat :=
 Fixpoint count_nat (q : nat) (l : list nat) : nat :=
   match l with [] => 0 | x :: r => (if Nat.eqb x q then 1 else 0) + count_nat q r end.
 
-Definition cstep (L : nat) (st : cstate) (e : cev) : option (cstate * list cout) :=
+Definition infl_step (L : nat) (st : infl_state) (e : infl_ev) : option (infl_state * list infl_out) :=
   match e with
-  | Arrive q =>
-    let cc := S (c_n st) in
-    if L <? cc then Some (mkC (cc - 1) (c_fl st), [ORefused q])
-    else Some (mkC cc (q :: c_fl st), [OAdmitted q])
-  | Finish q =>
-    if 0 <? count_nat q (c_fl st) then Some (mkC (c_n st - 1) (remove_one q (c_fl st)), [OAnswer q])
+  | InflArrive q =>
+    let cc := S (infl_n st) in
+    if L <? cc then Some (mkInfl (cc - 1) (infl_fl st), [InflRefused q])
+    else Some (mkInfl cc (q :: infl_fl st), [InflAdmitted q])
+  | InflFinish q =>
+    if 0 <? count_nat q (infl_fl st) then Some (mkInfl (infl_n st - 1) (remove_one q (infl_fl st)), [InflAnswer q])
     else None                                          (* not a behaviour: only a running handler finishes *)
   end.
 
-Fixpoint crun (L : nat) (st : cstate) (evs : list cev) : option (cstate * list cout) :=
+Fixpoint infl_run (L : nat) (st : infl_state) (evs : list infl_ev) : option (infl_state * list infl_out) :=
   match evs with
   | [] => Some (st, [])
   | e :: r =>
-    match cstep L st e with
+    match infl_step L st e with
     | None => None
-    | Some (st1, o1) => match crun L st1 r with Some (st2, o2) => Some (st2, o1 ++ o2) | None => None end
+    | Some (st1, o1) => match infl_run L st1 r with Some (st2, o2) => Some (st2, o1 ++ o2) | None => None end
     end
   end.
 
 (* k queries arriving while no handler finishes (slow upstream): which are refused *)
 Definition burst_refused (L k : nat) : list bool :=
-  match crun L c_init (map Arrive (seq 0 k)) with
-  | Some (_, outs) => map (fun o => match o with ORefused _ => true | _ => false end) outs
+  match infl_run L infl_init (map InflArrive (seq 0 k)) with
+  | Some (_, outs) => map (fun o => match o with InflRefused _ => true | _ => false end) outs
   | None => []
   end.
 
